@@ -213,6 +213,11 @@ impl ChaosDev {
                 // hold it for later
                 self.held.push((q, c.clone()));
             }
+            14 => {
+                // the right descriptor index in the low 16 bits of the 32-bit id, garbage above
+                push(w, qs, head | (1 + self.s.u16() as u32 % 0xffff) << 16, data.len() as u32);
+                self.malformed += 1;
+            }
             _ => {
                 push(w, qs, head, data.len() as u32);
                 self.completions += 1;
@@ -1321,7 +1326,7 @@ mod full {
             failure,
             info: PartInfo {
                 level: "exploration",
-                rule: "hostile device: for each of 13 targets (raw VirtQueue, OwningQueue, blk, console incl. embedded-io, net raw, net buffered, input, vsock connection manager, sound, gpu, rng, rtc, 9p) a byte script drives a chaotic reference device (valid / repeated / never-issued / out-of-range used ids, lengths 0 / short / exact / oversize / u32::MAX, used-index jumps, duplicate completions, held completions, arbitrary or plausible-looking response bytes, arbitrary configuration-space bytes, scribbling over descriptor table and available ring) while a second script calls the public API (the caller keeps honouring the unsafe contracts). Oracle: every call ends in a value, an error or a caught panic; the ledger sees no unshare without a live share and no double dealloc; no heap block still posted to the live device is freed (allocator interposer); no call returns while a buffer in its dead stack frame is still posted; every slice handed to the caller is read in full. The same decoder feeds libFuzzer/ASan targets (see ./run C07). Differential: histories of the well-behaved checks (blk, console, net, vsock table, event queues, command drivers, raw queue) are run clean and with the device overwriting the descriptor table and available ring after every fetch; both must pass their model comparison with identical outcome counters. Non-trivial = a case in which the driver consumed >=1 malformed completion and was called again; each differential pair. distinct = (target, features, malformed/normal completion counts, panics) / differential outcome signature.",
+                rule: "hostile device: for each of 13 targets (raw VirtQueue, OwningQueue, blk, console incl. embedded-io, net raw, net buffered, input, vsock connection manager, sound, gpu, rng, rtc, 9p) a byte script drives a chaotic reference device (valid / repeated / never-issued / out-of-range used ids, ids with garbage in the upper 16 bits, lengths 0 / short / exact / oversize / u32::MAX, used-index jumps, duplicate completions, held completions, arbitrary or plausible-looking response bytes, arbitrary configuration-space bytes, scribbling over descriptor table and available ring) while a second script calls the public API (the caller keeps honouring the unsafe contracts). Oracle: every call ends in a value, an error or a caught panic; the ledger sees no unshare without a live share and no double dealloc; no heap block still posted to the live device is freed (allocator interposer); no call returns while a buffer in its dead stack frame is still posted; every slice handed to the caller is read in full. The same decoder feeds libFuzzer/ASan targets (see ./run C07). Differential: histories of the well-behaved checks (blk, console, net, vsock table, event queues, command drivers, raw queue) are run clean and with the device overwriting the descriptor table and available ring after every fetch; both must pass their model comparison with identical outcome counters. Non-trivial = a case in which the driver consumed >=1 malformed completion and was called again; each differential pair. distinct = (target, features, malformed/normal completion counts, panics) / differential outcome signature.",
                 assumptions: vec![
                     "configuration-space counts that only size driver-side allocations (sound jacks/streams/chmaps) are clamped to < 5 to keep cases cheap".into(),
                     "the caller (harness) never presents a token it does not hold and keeps every buffer alive until the driver is dropped".into(),
